@@ -1,6 +1,6 @@
 """G4 rules: ownership (who-may-call), pairing and ordering over the CFG /
 analysis passes.  Serves C01, C02, C03, C11, C12."""
-import json, os
+import json, os, re
 from .core import rule, exempt, VERIF
 from .facts import *
 from .p_c08 import self_match, arm_table, ctor_names, PNODE, IPROPS
@@ -807,7 +807,7 @@ def _reach_walk(f, extras=None):
     return out
 
 
-@rule("C11", "C11.a.membership-pairing", floor=3)
+@rule("C11", "C11.a.membership-pairing", floor=4)
 def c11a(F, R):
     """in mark_reachable a node is pushed to the function's instruction list iff it is tagged with the function, and the walk follows successor edges from the entry"""
     p = [q for q in F.fns if q.endswith("FunctionMarkupPass::mark_reachable")]
@@ -850,6 +850,15 @@ def c11a(F, R):
                 recv, args = call_recv_args(n)
                 if ekey(recv) == var:
                     tag = i
+    # the registers the function writes: accumulated with `|=` over the same walk, and handed on as they are
+    structs = [n for n in walk(f["hir"]["value"], pats=False) if n.get("k") == "Struct" and any(x["name"] == "found" for x in n.get("fields", []))]
+    if structs:
+        dl = ekey([x for x in structs[0]["fields"] if x["name"] == "found"][0]["e"]).lstrip("&*")
+        accs = [a_ for a_ in walk(body, pats=False) if a_.get("k") in ("AssignOp", "Assign") and ekey(a_["l"]).lstrip("&*") == dl]
+        if accs and all(a_.get("k") == "AssignOp" and a_["op"] == "BitOrAssign" and any(y.get("k") == "MethodCall" and y["name"] == "writes_to" for y in walk(body, pats=False)) for a_ in accs):
+            R.ok("defs-accumulate", detail=f"`{dl} |= <register written by the node>` for every node of the walk", where=loc(accs[0]))
+        else:
+            R.bad("defs-accumulate", f"the set of registers a function writes (`{dl}`) is not accumulated with `|=` over the nodes of the walk ({[a_.get('op') or '=' for a_ in accs]}): the function's definitions come out empty or partial, and what it clobbers or returns is misjudged at every call site", loc(accs[0]) if accs else f["sp"])
     if push is not None and tag is not None:
         R.ok("push-and-tag", detail="<list>.push(node) and node.insert_function(func) are both unconditional statements of the walk body", where=loc(stmts[push]))
     else:
@@ -2539,6 +2548,180 @@ def c02l(F, R):
                 R.bad(f"subassign#{n}|{'+'.join(names)}", f"`{ekey(e)[:60]}` removes registers other than the node's kill set from a liveness set", loc(e))
             else:
                 R.ok(f"subassign#{n}", detail="-= kill[n]")
+
+
+@rule("C02", "C02.m.basic-instruction-predicates", floor=4)
+@rule("C11", "C11.i.basic-instruction-predicates", floor=4)
+@rule("C03", "C03.g.basic-instruction-predicates", floor=4)
+def c03g(F, R):
+    """the predicates that every pass asks about an instruction are evaluated on each node kind and on the operand values that matter: `is_return` holds exactly for `jalr x0, 0(ra)` and `uret`, `is_ureturn` exactly for `uret`, `is_ecall` exactly for `ecall`; `CfgNode::is_part_of_some_function` is "the set of owning functions is not empty". A predicate that is a little wider or narrower moves returns, exits and function bodies"""
+    from .nodeprops import eval_prop, Unx
+    vs = F.variants(PNODE)
+    BT = "riscv_analysis::parser::inst::BasicType"
+    basics = F.variants(BT)
+    cases = []
+    for b_ in basics:
+        cases.append(("Basic", {"inst": b_}))
+    cases += [("JumpLinkR", {"inst": "Jalr", "rd": "X0", "rs1": "X1", "imm": 0}), ("JumpLinkR", {"inst": "Jalr", "rd": "X1", "rs1": "X1", "imm": 0}),
+              ("JumpLinkR", {"inst": "Jalr", "rd": "X0", "rs1": "X5", "imm": 0}), ("JumpLinkR", {"inst": "Jalr", "rd": "X0", "rs1": "X1", "imm": 4}),
+              ("JumpLinkR", {"inst": "Jalr", "rd": "X5", "rs1": "X6", "imm": 0})]
+    for v in vs:
+        if v not in ("Basic", "JumpLinkR"):
+            cases.append((v, {"rd": "X0", "rs1": "X1", "rs2": "X1", "imm": 0, "inst": "?"}))
+    want = {
+        "is_return": lambda v, e: (v == "Basic" and e["inst"] == "Uret") or (v == "JumpLinkR" and e["rd"] == "X0" and e["rs1"] == "X1" and e["imm"] == 0),
+        "is_ureturn": lambda v, e: v == "Basic" and e["inst"] == "Uret",
+        "is_ecall": lambda v, e: v == "Basic" and e["inst"] == "Ecall",
+    }
+    for m, exp in want.items():
+        sp = F.fn(F.method(PNODE, m, trait=IPROPS))["sp"]
+        wrong = []
+        for v, env in cases:
+            try:
+                r = eval_prop(F, m, v, env)
+            except Unx as ex:
+                if v in ("Basic", "JumpLinkR"):
+                    wrong.append(f"{v} {env}: UNEXTRACTABLE ({ex})")
+                    continue
+                r = "?"
+            if r == "?":
+                continue
+            if bool(r) is not bool(exp(v, env)):
+                wrong.append(f"{v.lower()} {', '.join(f'{k}={x}' for k, x in sorted(env.items()) if x != '?')}: {r}, expected {exp(v, env)}")
+        if wrong:
+            R.bad(m, f"ParserNode::{m} is wrong for {wrong[0]} ({len(wrong)} case(s)): returns, exits and function bodies are found with this predicate", sp)
+        else:
+            R.ok(m, detail=f"{m} evaluated on {len(cases)} kind/operand cases", where=sp)
+    # CfgNode::is_part_of_some_function
+    cn = inherent_methods(F, CFGNODE).get("is_part_of_some_function")
+    if cn:
+        g = F.fn(cn)
+
+        def ev(e, empty):
+            e = peel(e)
+            while e.get("k") in ("Ret", "DropTemps", "Use") or (e.get("k") == "Block" and (e.get("expr") is not None or len(e.get("stmts", [])) == 1)):
+                if e.get("k") == "Block":
+                    e = peel(e["expr"]) if e.get("expr") is not None else peel(e["stmts"][0].get("e") or {})
+                else:
+                    e = peel(e.get("e") or {})
+            k = e.get("k")
+            if k == "Unary" and e["op"] == "Not":
+                return not ev(e["a"], empty)
+            if k == "Binary" and e["op"] in ("Eq", "Ne"):
+                a, b = ev(e["a"], empty), ev(e["b"], empty)
+                return (a == b) if e["op"] == "Eq" else (a != b)
+            if k == "Lit" and e["lit"]["t"] == "bool":
+                return e["lit"]["v"]
+            if k == "MethodCall" and e["name"] == "is_empty" and mentions_call(e["recv"], "functions"):
+                return empty
+            if k == "Binary" and e["op"] in ("Gt", "Ge", "Lt", "Le") and mentions_call(e["a"], "len") and mentions_call(e["a"], "functions") and isinstance(lit_value(e["b"]), int):
+                n = 0 if empty else 1
+                c = lit_value(e["b"])
+                return {"Gt": n > c, "Ge": n >= c, "Lt": n < c, "Le": n <= c}[e["op"]]
+            raise ValueError(ekey(e)[:40])
+        try:
+            okk = ev(g["hir"]["value"], True) is False and ev(g["hir"]["value"], False) is True
+            if okk:
+                R.ok("is_part_of_some_function", detail="true exactly when functions() is not empty", where=g["sp"])
+            else:
+                R.bad("is_part_of_some_function", "CfgNode::is_part_of_some_function does not mean 'the node has an owning function': the lints that ask it (lost callee-saved value) fire outside functions and keep silent inside", g["sp"])
+        except ValueError as ex:
+            R.bad("is_part_of_some_function|unextractable", f"UNEXTRACTABLE: is_part_of_some_function ({ex})", g["sp"])
+
+
+@rule("C01", "C01.q.set-algebra-is-what-its-operators-say", floor=12)
+@rule("C02", "C02.n.set-algebra-is-what-its-operators-say", floor=12)
+def c02n(F, R):
+    """the dataflow equations are written with `&`, `|` and `-` on RegisterSet (and `&=` on the value maps): each operator implementation is evaluated as a bit expression over one bit of each operand and must be the Boolean function its trait names - intersection, union, difference - in the plain and in the assigning form, for a set and for a single register on the right"""
+    RS = "riscv_analysis::cfg::register_set::RegisterSet"
+    want = {"BitAnd": lambda a, b: a & b, "BitOr": lambda a, b: a | b, "Sub": lambda a, b: a & (1 - b), "BitXor": lambda a, b: a ^ b}
+    n = 0
+    for i in F.impls:
+        if i["self_ty"] != RS:
+            continue
+        tr = (i.get("trait") or "").split("::")[-1]
+        base = tr.replace("Assign", "")
+        if base not in want or tr not in (base, base + "Assign"):
+            continue
+        for it in i["items"]:
+            g = F.fns.get(it["path"])
+            if not g or "hir" not in g:
+                continue
+            params = [x.get("name") for x in g["hir"]["params"]]
+            rhs = params[1] if len(params) > 1 else None
+
+            class U(Exception):
+                pass
+
+            def ev(e, a, b):
+                e = peel(e)
+                while e.get("k") == "Block" and not e.get("stmts") and e.get("expr") is not None:
+                    e = peel(e["expr"])
+                k = e.get("k")
+                if k == "Field" and e["name"] == "registers":
+                    root = ekey(e["e"]).lstrip("&*")
+                    if root == "self":
+                        return a
+                    if root == rhs:
+                        return b
+                    raise U(ekey(e))
+                if k == "Binary" and e["op"] in ("BitAnd", "BitOr", "BitXor"):
+                    x, y = ev(e["a"], a, b), ev(e["b"], a, b)
+                    return {"BitAnd": x & y, "BitOr": x | y, "BitXor": x ^ y}[e["op"]]
+                if k == "Unary" and e["op"] == "Not":
+                    return 1 - ev(e["a"], a, b)
+                if k == "Binary" and e["op"] == "Shl" and lit_value(e["a"]) == 1 and mentions_call(e["b"], "to_num"):
+                    return b
+                if k == "Struct":
+                    fs = [x for x in e["fields"] if x["name"] == "registers"]
+                    if len(fs) == 1:
+                        return ev(fs[0]["e"], a, b)
+                if k == "Block" and len(e.get("stmts", [])) == 1 and e.get("expr") is None:
+                    st = peel(e["stmts"][0].get("e") or {})
+                    return ev(st, a, b)
+                if k == "AssignOp" and e["op"] in ("BitAndAssign", "BitOrAssign", "BitXorAssign"):
+                    l = ev(e["l"], a, b)
+                    r = ev(e["r"], a, b)
+                    return {"BitAndAssign": l & r, "BitOrAssign": l | r, "BitXorAssign": l ^ r}[e["op"]]
+                if k == "Assign":
+                    return ev(e["r"], a, b)
+                raise U(ekey(e)[:50])
+            n += 1
+            rk = "Register" if "<riscv_analysis::parser::register::Register>" in (i.get("trait_ref") or "") else "Set"
+            key = f"RegisterSet|{tr}|{rk}"
+            try:
+                table = [ev(g["hir"]["value"], a, b) for a in (0, 1) for b in (0, 1)]
+                exp = [want[base](a, b) for a in (0, 1) for b in (0, 1)]
+                if table == exp:
+                    R.ok(key, detail=f"{tr}: truth table {table}", where=g["sp"])
+                else:
+                    R.bad(key, f"`impl {tr} for RegisterSet` computes the Boolean function {table} on (self, rhs) = (0,0),(0,1),(1,0),(1,1); {base} is {exp}: every dataflow equation written with this operator means something else", g["sp"])
+            except U as ex:
+                R.bad(key + "|unextractable", f"UNEXTRACTABLE: {tr} for RegisterSet ({ex})", g["sp"])
+    # the value map's `&=`: keeps an entry iff the other map has the same key with an equal value
+    AVM = "riscv_analysis::cfg::available_value_map::AvailableValueMap"
+    for i in F.impls:
+        if re.sub(r"<.*", "", i["self_ty"]) != AVM or (i.get("trait") or "").split("::")[-1] != "BitAndAssign":
+            continue
+        for it in i["items"]:
+            g = F.fns.get(it["path"])
+            if not g or "hir" not in g:
+                continue
+            n += 1
+            body = g["hir"]["value"]
+            ret = [m for m in walk(body, pats=False) if m.get("k") == "MethodCall" and m["name"] == "retain"]
+            clos = [F.fns[q]["hir"]["value"] for q in F.fns if q.startswith(it["path"] + "::{closure") and "hir" in F.fns[q]] + [c["body"] for c in walk(body, pats=False) if c.get("k") == "Closure" and c.get("body")]
+            okk = False
+            for c in clos:
+                for b_ in walk(c, pats=False):
+                    if b_.get("k") == "Binary" and b_["op"] == "Eq" and mentions_call(b_, "get") and any(short(callee_of(x) or "") == "Some" for x in walk(b_, pats=False) if x.get("k") == "Call"):
+                        okk = True
+            if ret and okk:
+                R.ok("AvailableValueMap|BitAndAssign", detail="retain(|k, v| other.get(k) == Some(v)): intersection of equal facts", where=g["sp"])
+            else:
+                R.bad("AvailableValueMap|BitAndAssign", "`&=` on the value map is not `retain(|k, v| other.get(k) == Some(v))`: the meet of the value analysis is no longer 'known on every path with the same value'", g["sp"])
+    if n == 0:
+        raise Anchor("no set-operator impls found")
 
 
 @rule("C13", "C13.g.zero-register-operands-fold-as-zero", floor=1)
